@@ -17,10 +17,94 @@ def cap(cl_term, t):
     return None
 
 
+def _cmp_case_eval(cl, closure_term, t, value_term, case, depth=0):
+    """Truth value of the boolean term t of closure body `cl` (a predicate on one bound b, capturing the observed value v) when v relates to b as `case`:
+    'lt' (v < b), 'eq', 'gt', 'un' (v is NaN; stored bounds never are).  None when t is not understood."""
+    if depth > 8 or not isinstance(t, tuple) or not t:
+        return None
+    t = peel(t, transparent=[])
+
+    def side(x):
+        x = peel(x)
+        cx = cap(closure_term, x)
+        if cx is not None and cx == value_term:
+            return "v"
+        y = x
+        while isinstance(y, tuple) and y and y[0] in ("field",) and peel(y[1]) != P(2) and y[1] != P(2):
+            y = peel(y[1])
+        if y == P(2) or (isinstance(y, tuple) and y and y[0] == "field" and peel(y[1]) == P(2)):
+            return "b"
+        return None
+    TRUE = {"lt": {"Lt", "Le", "Ne"}, "eq": {"Le", "Ge", "Eq"}, "gt": {"Gt", "Ge", "Ne"}, "un": {"Ne"}}
+    SWAP = {"Lt": "Gt", "Le": "Ge", "Gt": "Lt", "Ge": "Le", "Eq": "Eq", "Ne": "Ne"}
+    if t[0] == "const" and t[1] in ("true", "false"):
+        return t[1] == "true"
+    if t[0] == "unop" and t[1] == "Not":
+        x = _cmp_case_eval(cl, closure_term, t[2], value_term, case, depth + 1)
+        return None if x is None else (not x)
+    if t[0] == "binop" and t[1] in SWAP:
+        a, c_ = side(t[2]), side(t[3])
+        if (a, c_) == ("v", "b"):
+            return t[1] in TRUE[case]
+        if (a, c_) == ("b", "v"):
+            return SWAP[t[1]] in TRUE[case]
+        return None
+    if t[0] == "binop" and t[1] in ("BitAnd", "BitOr"):
+        x, y = _cmp_case_eval(cl, closure_term, t[2], value_term, case, depth + 1), _cmp_case_eval(cl, closure_term, t[3], value_term, case, depth + 1)
+        if x is None or y is None:
+            return None
+        return (x and y) if t[1] == "BitAnd" else (x or y)
+    if is_call(t, "f64::is_nan") and t[2]:
+        sd = side(t[2][0])
+        return (case == "un") if sd == "v" else (False if sd == "b" else None)
+    if t[0] == "var":
+        defs = cl.defs().get(t[1], [])
+
+        def term_of(d):
+            return cl.term_rvalue(d[3], (d[1], d[2])) if d[0] == "assign" else cl.term_call(d[1])
+        if len(defs) == 1 and defs[0][0] in ("assign", "call"):
+            return _cmp_case_eval(cl, closure_term, term_of(defs[0]), value_term, case, depth + 1)
+        if len(defs) == 2 and all(d[0] in ("assign", "call") for d in defs):
+            d1, d2 = defs
+            for bi in cl.reachable_blocks():
+                be = cl.bool_edges(bi)
+                if not be:
+                    continue
+                for (x, y) in ((d1, d2), (d2, d1)):
+                    if cl.edge_dominates(bi, be[1], x[1]) and cl.edge_dominates(bi, be[2], y[1]):
+                        c0 = _cmp_case_eval(cl, closure_term, be[0], value_term, case, depth + 1)
+                        if c0 is None:
+                            return None
+                        return _cmp_case_eval(cl, closure_term, term_of(x if c0 else y), value_term, case, depth + 1)
+    return None
+
+
+def _partition_point_scan(f, b, value_term):
+    """`bounds.partition_point(|b| !(v <= *b))`: on bounds that are strictly increasing and NaN-free (C08.R1/R2/R7: every stored list passed the gate) the
+    index of the first bound with v <= b, found by binary search.  The predicate is evaluated for the four ways v can relate to a bound."""
+    for c in b.calls_to(["slice::partition_point"]):
+        closure = peel(c.args[1], transparent=[])
+        if not (isinstance(closure, tuple) and closure and closure[0] == "agg" and closure[1] == "closure"):
+            continue
+        cl = f.closure(closure[2])
+        if cl is None:
+            continue
+        bounds = peel(c.args[0], transparent=["Deref::deref", "Vec::as_slice"])
+        r = cl.term_local(0)
+        vals = {case: _cmp_case_eval(cl, closure, r, value_term, case) for case in ("lt", "eq", "gt", "un")}
+        ok = vals == {"lt": False, "eq": False, "gt": True, "un": True}
+        return {"ok": ok, "pred": "v<=b" if ok else "?%s" % vals, "bounds": bounds, "call": c, "kind": "partition_point", "closure": cl, "adapters": [],
+                "why": "binary search whose predicate is true for %s" % sorted(k for k, v_ in vals.items() if v_) + " (wanted: exactly the bounds with !(v <= b): gt and NaN)"}
+    return None
+
+
 def first_match_scan(f, b, value_term):
     """Recognise `upper_bounds.iter().enumerate().filter(|&(_, f)| v <= *f).next()` (or find/position forms) in body b.
     Returns dict(bounds=collection term, pred=('Le'|...), ok=bool, call=next/find call, index_term, why)"""
     res = {"ok": False, "why": "no first-match scan over the bounds found"}
+    pp = _partition_point_scan(f, b, value_term)
+    if pp is not None:
+        return pp
     for c in b.calls():
         if not c.matches(["Iterator::next", "Iterator::find", "Iterator::position"]):
             continue
